@@ -80,6 +80,12 @@ func (p *Persister) Serialize() ([]byte, error) {
 
 // Deserialize decodes the state and cache from storage, and applies them to the persister.
 func (p *Persister) Deserialize(b []byte) error {
+	// the decoder merges into the maps it finds, also those an earlier session left
+	// behind in the spare capacity of the scope list: start from empty containers.
+	if p.Memory != nil {
+		p.Memory.Cache = nil
+		p.Memory.Sizes = make(map[string]uint16)
+	}
 	err := cbor.Unmarshal(b, p)
 	return err
 }
